@@ -33,7 +33,7 @@ class SimpleWatchdog:
         self._get_time = wpilib.RobotController.getFPGATime
 
         self._startTime = 0  # us
-        self._timeout = int(timeout * 1e6)  # us
+        self._timeout = round(timeout * 1e6)  # us
         self._expirationTime = 0  # us
         self._lastTimeoutPrintTime = 0  # us
         self._lastEpochsPrintTime = 0  # us
@@ -50,7 +50,7 @@ class SimpleWatchdog:
                         resolution.
         """
         self._epochs.clear()
-        timeout = int(timeout * 1e6)  # us
+        timeout = round(timeout * 1e6)  # us
         self._timeout = timeout
         self._startTime = self._get_time()
         self._expirationTime = self._startTime + timeout
